@@ -1,5 +1,5 @@
-//go:build verif
-// +build verif
+//go:build verif && linux
+// +build verif,linux
 
 package canary
 
